@@ -8,12 +8,11 @@
    Both loops are "for cond" loops: gen_QuantileCI takes fuel.  The greedy loop is tied to the
    model's own fuelled [loop] iteration for iteration (go_while needs one unit more: the model
    tests the guard once more at fuel 0).  The widening loop of the normal branch
-   (for cdf(l,r) < confidence && ... { l--; r++ }) is in the model too ([widen], Model/QuantileCI.v); the tie
-   of that branch is stated for the case in which neither loop runs (hypothesis: the rounded band already
-   has the mass or covers everything — what C11_normal_no_widening proves for exact quantiles); the case
-   with widenings is tied by the correspondence only (generator class (b7), tag 32768). *)
+   (for cdf(l,r) < confidence && ... { l--; r++ }) is in the model too ([widen], Model/QuantileCI.v); the generated
+   loop is tied to it iteration for iteration (while_widen), so the tie of that branch holds WITH widenings:
+   with fuel beyond the model's bound widen_fuel the generated code returns exactly qci_normal. *)
 From Coq Require Import ZArith NArith QArith Qround Qabs List Bool Lia Lqa.
-From MM Require Import Base.Num Base.GoSem Model.QuantileCI Proofs.TicksLinear.
+From MM Require Import Base.Num Base.GoSem Model.QuantileCI Proofs.TicksLinear Proofs.QuantileCI.
 From MMGen Require Import Gen_stats_types Gen_stats_quantileci.
 Import ListNotations.
 Local Open Scope Q_scope.
@@ -165,56 +164,100 @@ Proof.
   - apply Qplus_lt_r. reflexivity.
 Qed.
 
+(* the widening loop (quantileci.go: for cdf(l, r) < confidence && (l > 0 || r < n+1) { l--; r++ }) against the
+   model's [widen]: with a guard that is the model's [widen_more] and a body that is (l-1, r+1) on small
+   integers, and when the model's run has really stopped (its guard is false at its result), the generated
+   loop with one unit more fuel returns the model's result *)
+Definition small59 (z : Z) : Prop := (- 2 ^ 59 < z < 2 ^ 59)%Z.
+Ltac z59 := unfold small62, small60, small59 in *; zpow; change (2 ^ 61)%Z with 2305843009213693952%Z in *;
+            change (2 ^ 60)%Z with 1152921504606846976%Z in *; change (2 ^ 59)%Z with 576460752303423488%Z in *; lia.
+
+Lemma widen_shape (B : Z -> Z -> Q) n c : forall f l r,
+  exists k, (0 <= k <= Z.of_nat f)%Z /\ widen B f n c l r = ((l - k)%Z, (r + k)%Z).
+Proof.
+  induction f as [|f IH]; intros l r.
+  - exists 0%Z. cbn [widen]. rewrite Z.sub_0_r, Z.add_0_r. split; [lia | reflexivity].
+  - cbn [widen]. destruct (widen_more B n c l r).
+    + destruct (IH (l - 1)%Z (r + 1)%Z) as (k & Hk & E). exists (k + 1)%Z. split; [lia|].
+      rewrite E. f_equal; lia.
+    + exists 0%Z. rewrite Z.sub_0_r, Z.add_0_r. split; [lia | reflexivity].
+Qed.
+
+Lemma while_widen (B : Z -> Z -> Q) n c (cnd : Z * Z -> bool) (bdy : Z * Z -> Z * Z) :
+  (forall l r, cnd (l, r) = widen_more B n c l r) ->
+  (forall l r, small62 l -> small62 r -> bdy (l, r) = ((l - 1)%Z, (r + 1)%Z)) ->
+  forall f l r, (Z.abs l + Z.of_nat f < 2 ^ 61)%Z -> (Z.abs r + Z.of_nat f < 2 ^ 61)%Z ->
+  widen_more B n c (fst (widen B f n c l r)) (snd (widen B f n c l r)) = false ->
+  go_while (S f) cnd bdy (l, r) = Some (widen B f n c l r).
+Proof.
+  intros Hc Hb. induction f as [|f IH]; intros l r Hl Hr Hstop.
+  - cbn [widen fst snd] in *. rewrite go_while_S, Hc, Hstop. reflexivity.
+  - rewrite go_while_S, Hc. cbn [widen] in *. destruct (widen_more B n c l r) eqn:E; [|reflexivity].
+    rewrite Hb by (unfold small62; zpow; change (2 ^ 61)%Z with 2305843009213693952%Z in *; lia).
+    apply IH; [zpow; change (2 ^ 61)%Z with 2305843009213693952%Z in *; lia
+              | zpow; change (2 ^ 61)%Z with 2305843009213693952%Z in *; lia | exact Hstop].
+Qed.
+
+(* the whole normal branch, widening loop included: with fuel beyond the model's own bound
+   [widen_fuel] = max(l, n+1-r) the generated code returns exactly the model's [qci_normal] — the object of
+   C11_normal_band, C11_normal_conf_ge_c, C11_normal_orders, C11_normal_no_widening *)
 Theorem tie_QuantileCI_normal : forall ncdff ninvcdff normapproxf pmff thresholdv (f : nat) (n : Z) (q c : Q),
-  small62 n -> c < 1 -> (thresholdv < n)%Z ->
+  small59 n -> c < 1 -> (thresholdv < n)%Z ->
   let norm := normapproxf (mk_BinomialDist n q) in
   let l1 := ninvcdff norm (qci_alpha c) in
   let r1 := (2 # 1) * NormalDist_Mu norm - l1 in
-  small60 (Qfloor (l1 - (1 # 2))) -> small60 (Qceiling (r1 - (1 # 2))) ->
+  small59 (Qfloor (l1 - (1 # 2))) -> small59 (Qceiling (r1 - (1 # 2))) ->
   let l0 := (Qfloor (l1 - (1 # 2)) + 1)%Z in
   let r := (Qceiling (r1 - (1 # 2)) + 1)%Z in
   let l := if (r <=? l0)%Z then (r - 1)%Z else l0 in
-  (* the band already has the mass (or covers everything): the widening loop does not run *)
-  (c <= band_of ncdff norm l r \/ ((l <= 0)%Z /\ (n + 1 <= r)%Z)) ->
+  (widen_fuel n l r <= f)%nat ->
   gen_QuantileCI ncdff ninvcdff normapproxf pmff thresholdv (S f) n q c =
   Some (to_res q n (qci_normal (band_of ncdff norm) n c l1 r1)).
 Proof.
-  intros ncdff ninvcdff normapproxf pmff thresholdv f n q c Hn Hc Hth norm l1 r1 Hl1 Hr1 l0 r l Hnw.
+  intros ncdff ninvcdff normapproxf pmff thresholdv f n q c Hn Hc Hth norm l1 r1 Hl1 Hr1 l0 r l Hf.
   unfold gen_QuantileCI. cbv zeta. rproj.
   apply Qleb_niff in Hc. rewrite Hc. destruct (Z.leb_spec n thresholdv) as [C|_]; [lia|].
   fold norm. change (if Qltb (1 # 2) (((1 # 1) - c) / (2 # 1)) then 1 # 2 else ((1 # 1) - c) / (2 # 1)) with (qci_alpha c).
   fold l1. fold r1. unfold go_floor, go_ceil. rewrite !go_f2i_inject, !floor_half_int.
-  rewrite !sadd1 by z62. fold l0. fold r.
-  assert (Hl0 : small62 l0) by (unfold l0; z62). assert (Hr : small62 r) by (unfold r; z62).
-  rewrite (ssub1 r) by exact Hr.
+  rewrite !sadd1 by z59. fold l0. fold r.
+  assert (Hl0 : small60 l0) by (unfold l0; z59). assert (Hr : small60 r) by (unfold r; z59).
+  rewrite (ssub1 r) by z59.
   change (if (r <=? l0)%Z then (r - 1)%Z else l0) with l.
-  assert (Hl : small62 l) by (unfold l; destruct (r <=? l0)%Z; z62).
-  (* the loop guard is false on entry *)
-  rewrite go_while_S. cbv beta iota.
-  match goal with |- context [Qltb ?a c && ((0 <? l)%Z || (r <? n + 1)%Z)] =>
-    change a with (band_of ncdff norm l r);
-    replace (Qltb (band_of ncdff norm l r) c && ((0 <? l)%Z || (r <? n + 1)%Z)) with false end.
-  2:{ symmetry. destruct Hnw as [H|[H1 H2]].
-      - apply Qltb_niff in H. rewrite H. reflexivity.
-      - replace (0 <? l)%Z with false by (symmetry; apply Z.ltb_ge; lia).
-        replace (r <? n + 1)%Z with false by (symmetry; apply Z.ltb_ge; lia). apply andb_false_r. }
-  rewrite (ssub1 r) by exact Hr. unfold qci_normal. cbv zeta. fold l0. fold r.
+  assert (Hl : small60 l) by (unfold l; destruct (r <=? l0)%Z; z59).
+  set (B := band_of ncdff norm).
+  set (f0 := widen_fuel n l r) in *.
+  assert (Bl : (- 2 ^ 59 <= l <= 2 ^ 59)%Z) by (unfold l, l0, r; destruct (_ <=? _)%Z; z59).
+  assert (Br : (- 2 ^ 59 <= r <= 2 ^ 59)%Z) by (unfold r; z59).
+  assert (Hf0 : (Z.of_nat f0 <= 2 ^ 60 + 1)%Z).
+  { unfold f0, widen_fuel. z59. }
+  (* the model's run stops within its own fuel *)
+  destruct (Proofs.QuantileCI.widen_spec B n c f0 l r) as (k & Hk & Ek & Estop & _).
+  { unfold f0, widen_fuel. lia. }
+  destruct (widen_shape B n c f0 l r) as (k' & Hk' & Ek'). rewrite Ek in Ek'. injection Ek' as E1 _.
+  assert (k' = k) by lia. subst k'.
+  (* the generated loop *)
+  match goal with |- context [go_while (S f) ?cnd ?bdy (l, r)] =>
+    assert (Hw : go_while (S f) cnd bdy (l, r) = Some (widen B f0 n c l r)) end.
+  { apply (go_while_mono _ _ (S f0) (S f)); [lia|].
+    apply (while_widen B n c).
+    - intros a b. cbv beta iota. rewrite ?(sadd1 n) by z59. reflexivity.
+    - intros a b Ha Hb. cbv beta iota zeta. rewrite ssub1, sadd1 by assumption. reflexivity.
+    - z59.
+    - z59.
+    - rewrite Ek. cbn [fst snd]. exact Estop. }
+  rewrite Hw, Ek. clear Hw.
+  set (lw := (l - k)%Z). set (rw := (r + k)%Z).
+  assert (Hlw : small62 lw) by (unfold lw; z59). assert (Hrw : small62 rw) by (unfold rw; z59).
+  rewrite (ssub1 rw) by exact Hrw. rewrite ?(sadd1 n) by z59.
+  unfold qci_normal. cbv zeta. fold l0. fold r.
   change (if (r <=? l0)%Z then (r - 1)%Z else l0) with l.
-  (* the model's own widening loop does not run either *)
-  assert (Hwm : widen_more (band_of ncdff norm) n c l r = false).
-  { unfold widen_more. destruct Hnw as [H|[H1 H2]].
-    - apply Qltb_niff in H. rewrite H. reflexivity.
-    - replace (0 <? l)%Z with false by (symmetry; apply Z.ltb_ge; lia).
-      replace (r <? n + 1)%Z with false by (symmetry; apply Z.ltb_ge; lia). apply andb_false_r. }
-  replace (widen (band_of ncdff norm) (widen_fuel n l r) n c l r) with (l, r)
-    by (destruct (widen_fuel n l r); cbn [widen]; rewrite ?Hwm; reflexivity).
-  change (Qle_bool c (band_of ncdff norm l (r - 1))) with (Qleb c (band_of ncdff norm l (r - 1))).
-  match goal with |- context [Qleb c ?a] => change a with (band_of ncdff norm l (r - 1)) end.
-  repeat match goal with |- context [ncdff norm (go_i2f r - (1 # 2)) - ncdff norm (go_i2f l - (1 # 2))] =>
-    change (ncdff norm (go_i2f r - (1 # 2)) - ncdff norm (go_i2f l - (1 # 2))) with (band_of ncdff norm l r) end.
-  destruct ((l <? r - 1)%Z && Qleb c (band_of ncdff norm l (r - 1)) && Qltb (band_of ncdff norm l (r - 1)) (band_of ncdff norm l r));
+  fold B. fold f0. rewrite Ek. fold lw. fold rw.
+  change (Qle_bool c (B lw (rw - 1)%Z)) with (Qleb c (B lw (rw - 1)%Z)).
+  repeat match goal with |- context [ncdff norm (go_i2f ?b - (1 # 2)) - ncdff norm (go_i2f ?a - (1 # 2))] =>
+    change (ncdff norm (go_i2f b - (1 # 2)) - ncdff norm (go_i2f a - (1 # 2))) with (B a b) end.
+  destruct ((lw <? rw - 1)%Z && Qleb c (B lw (rw - 1)%Z) && Qltb (B lw (rw - 1)%Z) (B lw rw));
     cbv iota beta;
-    match goal with |- context [(l <=? 0)%Z && (n + 1 <=? ?rr)%Z] => destruct ((l <=? 0)%Z && (n + 1 <=? rr)%Z) end;
+    match goal with |- context [(lw <=? 0)%Z && (n + 1 <=? ?rr)%Z] => destruct ((lw <=? 0)%Z && (n + 1 <=? rr)%Z) end;
     unfold to_res, clampR; rproj; reflexivity.
 Qed.
 
